@@ -3,6 +3,7 @@
    consumes exactly one complete msgpack value as the specification parser defines it. *)
 From FF Require Import model.Bytes model.Msgp model.Spec model.Forward model.Handshake.
 From FF Require Import proofs.Bytes_Proofs proofs.Msgp_Total proofs.Total_Proofs.
+From FF Require Import proofs.Take_Proofs.
 From Coq Require Import Lia ZifyN ZifyNat ZifyBool.
 Open Scope N_scope.
 
@@ -194,7 +195,7 @@ Proof. intros. rewrite parse_S. cbv zeta. chain_lia. reflexivity. Qed.
 (* ---------- take / rd_be against otake / onum ---------- *)
 
 Lemma take_otake k bs h t : take k bs = Ok (h, t) -> otake k bs = Some (h, t).
-Proof. unfold take, otake. destruct (k <=? len bs); [|discriminate]. intros H; inv H. reflexivity. Qed.
+Proof. rewrite !take_unfold, !otake_unfold. destruct (k <=? len bs); [|discriminate]. intros H; inv H. reflexivity. Qed.
 
 Lemma rd_be_onum k bs x t : rd_be k bs = Ok (x, t) -> onum (N.of_nat k) bs = Some (x, t).
 Proof.
@@ -534,16 +535,16 @@ Proof.
 Qed.
 
 Lemma otake_0 t h r : otake 0 t = Some (h, r) -> r = t.
-Proof. unfold otake. destruct (N.leb_spec 0 (len t)); [|lia]. intros E; inv E. reflexivity. Qed.
+Proof. rewrite !otake_unfold. destruct (N.leb_spec 0 (len t)); [|lia]. intros E; inv E. reflexivity. Qed.
 
 Lemma otake_succ l bs h u : otake (l + 1) bs = Some (h, u) ->
   exists x bs' d, bs = x :: bs' /\ otake l bs' = Some (d, u).
 Proof.
-  unfold otake. destruct (N.leb_spec (l + 1) (len bs)) as [L|]; [|discriminate].
+  rewrite !otake_unfold. destruct (N.leb_spec (l + 1) (len bs)) as [L|]; [|discriminate].
   destruct bs as [|x bs']; [rewrite len_nil in L; lia|]. rewrite len_cons in L.
   replace (N.to_nat (l + 1)) with (S (N.to_nat l)) by lia. cbn [firstn skipn].
   intros H; inv H. exists x, bs', (firstn (N.to_nat l) bs'). split; [reflexivity|].
-  destruct (N.leb_spec l (len bs')); [reflexivity|lia].
+  rewrite otake_unfold. destruct (N.leb_spec l (len bs')); [reflexivity|lia].
 Qed.
 
 Lemma spec_size_low n : n < 192 -> spec_size n = 1.
@@ -884,11 +885,11 @@ Qed.
 
 Lemma local_otake k : local (otake k).
 Proof.
-  intros t h r H. unfold otake in H. destruct (N.leb_spec k (len t)) as [L|]; [|discriminate]. inv H.
+  intros t h r H. rewrite !otake_unfold in H. destruct (N.leb_spec k (len t)) as [L|]; [|discriminate]. inv H.
   exists (firstn (N.to_nat k) t). split; [symmetry; apply firstn_skipn|]. intros x.
   assert (Hl : length (firstn (N.to_nat k) t) = N.to_nat k)
     by (rewrite firstn_length; unfold len in L; lia).
-  unfold otake. destruct (N.leb_spec k (len (firstn (N.to_nat k) t ++ x))) as [_|L'].
+  rewrite !otake_unfold. destruct (N.leb_spec k (len (firstn (N.to_nat k) t ++ x))) as [_|L'].
   - f_equal. f_equal.
     + rewrite firstn_app, Hl, Nat.sub_diag. cbn [firstn]. rewrite app_nil_r.
       rewrite <- Hl at 1. apply firstn_all.
